@@ -61,6 +61,7 @@ func (t *dbTracker) remove(r *dbResource) {
 	defer t.mu.Unlock()
 
 	delete(t.resources, r)
+	vh("dep.removed", r)
 }
 
 // processBinlog processes a set of updates from the MySQL binlog
@@ -70,9 +71,11 @@ func (t *dbTracker) processBinlog(update *update) {
 
 	for q := range t.resources {
 		if q.shouldInvalidate(update) {
+			vh("binlog.invalidate", q)
 			q.resource.Invalidate()
 		}
 	}
+	vh("binlog.processed", update.table, update.err)
 }
 
 // QueryDependency represents a dependency on SQL query.
@@ -94,6 +97,7 @@ func (t *dbTracker) registerDependency(ctx context.Context, schema *sqlgen.Schem
 	reactive.AddDependency(ctx, r.resource, QueryDependency{Table: table, Filter: filter})
 
 	t.add(r)
+	vh("dep.registered", r, table, filter)
 	return nil
 }
 
